@@ -248,6 +248,7 @@ func Main(t *testing.T, scens map[string]Scenario) {
 		c.Limit = 200000
 		okRun := t.Run(fmt.Sprintf("r%d", run), func(t *testing.T) {
 			ctx.T = t
+			kern.T = t
 			sc(ctx)
 		})
 		newRace := raceLogSince(&raceOff)
